@@ -94,9 +94,12 @@ def scenarios(tier: str) -> List[ConcScenario]:
     tree = list(range(10))
     p = 3 if th else 2
     # tree-bin lock protocol: one restructuring writer against one / two readers of the same bin
-    S.append(ConcScenario('tree/insert-vs-get', hasher='samebin', capacity=40, prefill=tree, threads=[[('insert', 10)], [('get', 3)]], preemptions=p))
+    S.append(ConcScenario('tree/insert-vs-get', hasher='samebin', capacity=40, prefill=tree, threads=[[('insert', 10)], [('get', 3)]], preemptions=p, inv='treelock'))
     S.append(ConcScenario('tree/remove-vs-get', hasher='samebin', capacity=40, prefill=tree, threads=[[('remove', 4)], [('get', 7)]], preemptions=p))
-    S.append(ConcScenario('tree/insert-vs-get-get', hasher='const', capacity=40, prefill=tree, threads=[[('insert', 11)], [('get', 2)], [('get', 8)]], preemptions=2, yield_loads=th))
+    S.append(ConcScenario('tree/insert-vs-get-get', hasher='const', capacity=40, prefill=tree, threads=[[('insert', 11)], [('get', 2)], [('get', 8)]], preemptions=2, yield_loads=th, inv='treelock'))
+    # writer preference: a reader that arrives after the writer announced itself must not take the read lock (else a stream of
+    # overlapping readers starves the writer under a fair scheduler); one preemption at every access, loads included
+    S.append(ConcScenario('tree/remove-vs-get-get/writer-preference', hasher='const', capacity=40, prefill=tree, threads=[[('get', 2)], [('remove', 4)], [('get', 8)]], preemptions=1, yield_loads=True, inv='treelock'))
     S.append(ConcScenario('tree/remove-vs-insert', hasher='samebin', capacity=40, prefill=tree, threads=[[('remove', 5)], [('insert', 12)]], preemptions=2, yield_loads=th))
     # table initialisation race and its losers
     S.append(ConcScenario('init/insert-vs-insert', hasher='identity', capacity=None, prefill=[], threads=[[('insert', 1)], [('insert', 2)]], preemptions=p))
